@@ -264,7 +264,7 @@ def func_node(tree, qual):
 
 
 def lean_ident(qual):
-    return "fn_" + qual.replace(".", "_").replace("__", "dunder_")
+    return "fn_" + qual.replace(".", "_")
 
 
 def main():
